@@ -12,7 +12,7 @@ from AegeanTools import flags
 from AegeanTools.models import ComponentSource
 from AegeanTools.source_finder import SourceFinder
 from vlib import refs, skyimg
-from vlib.core import Res
+from vlib.core import Res, workdir
 
 PROP = "C05"
 SHARDS = {"quick": 16, "thorough": 16}
@@ -219,7 +219,7 @@ def check_case(c):
     tags = dict(stage=c["stage"], regroup=c["regroup"], psf=c["psf_cols"], ratio=c["ratio"] is not None)
     what = "stage=%d regroup=%s ratio=%s psf_cols=%s docov=%s n=%d" % (c["stage"], c["regroup"], c["ratio"], c["psf_cols"],
                                                                       c["docov"], len(cat))
-    d = tempfile.mkdtemp(prefix="c05_")
+    d = workdir("c05_")
     try:
         path = os.path.join(d, "im.fits")
         skyimg.write_fits(path, img, B["hdr"])
